@@ -7,6 +7,8 @@ use crate::{
     run,
     scenario::Scenario,
 };
+use crate::scenario::{DgramStep, Side, WStep};
+use proptest::prelude::*;
 use vcore::{CaseResult, Fail, Obs, PropCheck, SubCheck, Tier};
 
 pub fn oracle(sc: &Scenario, obs: &mut Obs) -> CaseResult {
@@ -23,6 +25,8 @@ pub fn oracle(sc: &Scenario, obs: &mut Obs) -> CaseResult {
     obs.class_if(s.lost_ack_datagrams > 0, "lost-ack-datagram");
     obs.class_if(s.prompt_checked > 0, "promptness-checked");
     obs.class_if(f.duplicated > 0, "duplicates");
+    obs.class_if(out.app.datagrams_sent > 0, "unreliable-datagrams-sent");
+    obs.class_if(s.ack_squeezed_out > 0, "packet-without-room-for-pending-ack");
     obs.nontrivial(s.gaps >= 2 && s.reordered_ack_eliciting >= 1 && s.lost_ack_datagrams >= 1);
     obs.sample = Some(serde_json::json!({
         "ack_frames": s.ack_frames, "gaps": s.gaps, "reordered_ack_eliciting": s.reordered_ack_eliciting,
@@ -46,11 +50,34 @@ pub const CFG: GenCfg = GenCfg {
     server_initiated: true,
 };
 
+/// half of the scenarios use the unreliable datagram extension: a full-sized DATAGRAM frame leaves no room for the ACK
+/// frame in its packet, which must then travel in a later one - still within the deadline
+pub fn scenario() -> impl Strategy<Value = Scenario> {
+    let dgram = (any::<bool>(), 0u32..400_000, prop_oneof![3 => 1_050u16..1_200, 1 => 1u16..1_500]).prop_map(|(client, at_us, len)| DgramStep { side: if client { Side::Client } else { Side::Server }, at_us, len });
+    (gen::scenario(CFG), prop::bool::weighted(0.5), prop::collection::vec(dgram, 1..10), prop::collection::vec((1_000u32..40_000, 1u32..3_000), 0..8)).prop_map(|(mut sc, on, dgrams, trickle)| {
+        if on {
+            sc.server.datagram = true;
+            for c in sc.clients.iter_mut() {
+                c.endpoint.datagram = true;
+                c.conn.datagrams = dgrams.clone();
+                // a slow trickle of small writes keeps delayed acknowledgements pending while datagrams go out
+                if let Some(st) = c.conn.streams.first_mut() {
+                    for (pause, n) in &trickle {
+                        st.fwd.steps.push(WStep::PauseUs(*pause));
+                        st.fwd.steps.push(WStep::Send(*n));
+                    }
+                }
+            }
+        }
+        sc
+    })
+}
+
 pub fn subs() -> Vec<Box<dyn SubCheck>> {
     vec![Box::new(PropCheck::<Scenario, _> {
         name: "acks_e2e",
         cases: |t| t.pick(1_500, 100_000),
-        strategy: |_t: Tier| gen::scenario(CFG),
+        strategy: |_t: Tier| scenario(),
         oracle,
         max_shrink_iters: 400,
     })]
